@@ -562,6 +562,28 @@ impl Mon {
         let (any, all) = self.within(i);
         let limit_err = matches!(err, RecvError::TransferLimitExceeded);
         let detach_says_so = self.detach_conditions.iter().any(|c| c.contains("TransferLimitExceeded"));
+        // An Auto(n) link never lowers its credit: the flow the sender acted on is a promise the link keeps.
+        // (The two-readings tolerance of `within` exists for credit lowered by the application, or the sender's
+        // count jumping after a drain, while deliveries wait in the link - neither can happen on an Auto(n) link.)
+        let auto_promise = matches!(self.cfg.policy, Policy::Auto(_)) && {
+            let s = &self.sent[i];
+            serial_lt(s.dc_before, self.rflows[s.flow_at_send].limit())
+        };
+        if auto_promise && !all && !self.poisoned {
+            let s = &self.sent[i];
+            let f = &self.rflows[s.flow_at_send];
+            self.fail(
+                "c2 within-credit-delivery-refused (auto)",
+                format!(
+                    "recv() failed with `{err}` on delivery m{i}: the sender sent it at delivery-count {} after the receiver's flow delivery-count {} link-credit {} \
+                     (limit {}), and an Auto(n) link never takes credit back",
+                    s.dc_before,
+                    f.dc,
+                    f.credit,
+                    f.limit()
+                ),
+            );
+        }
         if all && !self.poisoned {
             let s = &self.sent[i];
             let lims: Vec<String> = self.rflows[s.flow_at_send..].iter().map(|f| format!("{}+{}", f.dc, f.credit)).collect();
